@@ -58,10 +58,16 @@ def preset_case(r, kind, cplx):
     L = pipeline.lab
     if kind == "coulombS":
         cmd = "preset coulombS %s %s %s" % (L(a[0]), v(), v())
-    elif kind == "coulombP":
-        cmd = "preset coulombP %s %s %s %s %s" % (L(a[0]), v(), v(), v(), v())
-    elif kind == "coulombP3":
-        cmd = "preset coulombP3 %s %s %s %s" % (L(a[0]), v(), v(), v())
+    elif kind in ("coulombP", "coulombP3"):
+        # couplings with the special relations at which single coefficients of the Kanamori form vanish
+        # (U' = U - 2J = 0, U' - J = 0, J = 0, U = 0) as often as generic ones
+        J = r.choice([0.0, 0.25, -0.5, 1.0, pipeline.rand_amp(r, False)])
+        U = r.choice([2 * J, 3 * J, 0.0, pipeline.rand_amp(r, False), pipeline.rand_amp(r, False)])
+        if kind == "coulombP":
+            Up = r.choice([U - 2 * J, 0.0, J, pipeline.rand_amp(r, False)])
+            cmd = "preset coulombP %s %s %s %s %s" % (L(a[0]), pipeline.val(U), pipeline.val(Up), pipeline.val(J), v())
+        else:
+            cmd = "preset coulombP3 %s %s %s %s" % (L(a[0]), pipeline.val(U), pipeline.val(J), v())
     elif kind == "level":
         cmd = "preset level %s %s" % (L(a[0]), v())
     elif kind == "magnetization":
@@ -89,16 +95,16 @@ def preset_case(r, kind, cplx):
 def correspondence(ctx):
     r = ctx.rng
     thorough = ctx.tier == "thorough"
-    variants = ("real", "complex") if thorough else ("real",)
+    variants = ("real", "complex")
     reps = 12 if thorough else 3
     for variant in variants:
         scripts, kinds = [], []
         for kind in PRESETS:
-            for _ in range(reps):
+            for _ in range(reps if (thorough or variant == "real") else 1):
                 scripts.append(preset_case(r, kind, variant == "complex"))
                 kinds.append(kind)
         # mixtures of presets and user terms
-        for _ in range(60 if thorough else 16):
+        for _ in range(60 if thorough else (16 if variant == "real" else 5)):
             m = pipeline.gen_model(r, max_modes=r.choice([3, 4, 5 if thorough else 4]), cplx=(variant == "complex"))
             scripts.append(pipeline.core_script(m, order=r.below(2), symm=r.choice(["ignore", "default"]))[:-1])
             kinds.append("mixture")
